@@ -3,7 +3,9 @@
     {"op":"fold","events":[…],"nb_threads":n}
         → {"ok": report} | {"err": pyClass, "at": index};  plus "grammar": {"lenient","prefix","complete","sequential"}
     {"op":"replay","report":R,"now":ms,"tid":n,"nb_threads":n}
-        → {"events":[…], "fold": {"ok": report}|{"err":…}, "exact": bool, "names_ok": bool, "image_agrees": bool, "grammar": {…}}
+        → {"events":[…], "fold": {"ok": report}|{"err":…}, "exact": bool, "names_ok": bool, "image_agrees": bool, "grammar": {…},
+           "ranks_zero": bool, "literal_identity": bool}
+    {"op":"replays","reports":[R,…],"now":ms,"tid":n,"nb_threads":n} → {"answers":[one "replay" answer per report]}
   Run: `lake env lean --run drivers/C18.lean`
 -/
 import LccModel.Proto
@@ -11,6 +13,7 @@ import LccModel.ProtoReport
 import LccModel.Model.Writer
 import LccModel.Model.Grammar
 import LccModel.Model.Replay
+import LccModel.Model.Serial
 import LccModel.Lemmas.Writer
 open Lean LccModel LccModel.Proto LccModel.ProtoReport LccModel.Report LccModel.Writer LccModel.Replay
 
@@ -36,6 +39,22 @@ def grammarJson (es : List Event) : Json :=
               ("complete", Json.bool complete),
               ("sequential", Json.bool (Grammar.run .seq Grammar.init es).isSome)]
 
+/-- one report replayed and aggregated (`r0` = the fresh `Report()` the writer starts from) -/
+def replayJson (r : Report) (now tid nb : Nat) : Json :=
+  let r0 := { Report.empty with nbThreads := nb }
+  let es := replay now tid r
+  let agrees := match fold es r0 with
+    | .ok r' => encReport r' == encReport (replayImage now r0 r)
+    | .error _ => false
+  -- the right-hand side of `C18.replay_roundtrip_loaded_partial`: the report itself, children in the order it holds them
+  let literal := match fold es r0 with
+    | .ok r' => encReport r' == encReport { r0 with startTime := r.startTime, endTime := r.endTime, setup := r.setup,
+                                                    teardown := r.teardown, suites := r.suites }
+    | .error _ => false
+  Json.mkObj [("events", encList encEvent es), ("fold", foldJson r0 es), ("exact", Json.bool (replayExact r)),
+              ("names_ok", Json.bool (namesOk r)), ("image_agrees", Json.bool agrees), ("grammar", grammarJson es),
+              ("ranks_zero", Json.bool (Serial.ranksZeroList r.suites)), ("literal_identity", Json.bool literal)]
+
 def handle (j : Json) : Except String Json := do
   let op ← getStr j "op"
   match op with
@@ -52,13 +71,14 @@ def handle (j : Json) : Except String Json := do
     let now ← getNat j "now"
     let tid ← getNat j "tid"
     let nb ← getNat j "nb_threads"
-    let r0 := { Report.empty with nbThreads := nb }
-    let es := replay now tid r
-    let agrees := match fold es r0 with
-      | .ok r' => encReport r' == encReport (replayImage now r0 r)
-      | .error _ => false
-    pure (Json.mkObj [("events", encList encEvent es), ("fold", foldJson r0 es), ("exact", Json.bool (replayExact r)),
-                      ("names_ok", Json.bool (namesOk r)), ("image_agrees", Json.bool agrees), ("grammar", grammarJson es)])
+    pure (replayJson r now tid nb)
+  | "replays" =>
+    -- the same report in several forms (in memory, loaded from its JSON file, loaded from its XML file)
+    let rs ← decList decReport (← field j "reports")
+    let now ← getNat j "now"
+    let tid ← getNat j "tid"
+    let nb ← getNat j "nb_threads"
+    pure (Json.mkObj [("answers", Json.arr (rs.map (fun r => replayJson r now tid nb)).toArray)])
   | _ => throw s!"unknown op {op}"
 
 def main : IO Unit := loop (wrap handle)
